@@ -732,7 +732,7 @@ def _run_conc_shard(lines, results, offset, stall):
     start = 0
     while start < len(lines):
         p = subprocess.Popen([conc_bin(), str(start)], stdin=open(path), stdout=subprocess.PIPE, stderr=subprocess.DEVNULL, preexec_fn=_limit)
-        cur, buf, acc = None, b"", []
+        cur, buf, acc, last_end = None, b"", [], start - 1
         while True:
             r, _, _ = select.select([p.stdout], [], [], stall)
             if not r:
@@ -750,7 +750,8 @@ def _run_conc_shard(lines, results, offset, stall):
                     results[offset + cur] = acc + [{"status": "harness-crash", "ev": [], "live": [], "names": [], "seed": -1}]
                     start = cur + 1
                 else:
-                    start = len(lines)
+                    # the harness left after a complete scenario (it does so when it runs out of OS threads): go on in a fresh process
+                    start = last_end + 1
                 break
             buf += chunk
             while b"\n" in buf:
@@ -760,10 +761,15 @@ def _run_conc_shard(lines, results, offset, stall):
                     cur = int(line.split()[1])
                     acc = []
                 elif line.startswith("END "):
-                    results[offset + int(line.split()[1])] = acc
+                    last_end = int(line.split()[1])
+                    results[offset + last_end] = acc
                     acc = []
                 elif line.startswith("(cobs"):
-                    acc.append(parse_cobs(line))
+                    ob = parse_cobs(line)
+                    if ob["status"] == "harness-panic" and "out of OS threads" in ob.get("msg", ""):
+                        acc.append({"status": "truncated", "ev": [], "live": [], "names": [], "seed": -1})   # resource limit of the harness process, not an observation
+                    else:
+                        acc.append(ob)
                 elif line.startswith("(dfs-done"):
                     acc.append({"status": "dfs-done", "complete": line.split()[1] == "1", "ev": [], "live": [], "names": [], "seed": -1})
     try:
@@ -847,6 +853,7 @@ class ConcCheck:
         cases = only if only is not None else m.generate(rng, tier, seed)
         lines = [sx.dumps(c["scn"]) for c in cases]
         runs = run_conc(lines)
+        runs = [[o for o in r if o.get("status") != "truncated"] for r in runs]
         res = m.judge(cases, runs)
         known = [k for k in load_known() if k.get("property") == pid and k.get("status") == "known"]
         known_ids = set(k["id"] for k in known)
@@ -879,6 +886,7 @@ class ConcCheck:
             p = write_replay(pid, "unshown", payload)
             log("VIOLATION property=%s replay=%s no-failing-input-found" % (pid, p))
             status = 1
+        runs = [[o for o in r if o.get("status") != "truncated"] for r in runs]
         nruns = sum(len([o for o in r if o.get("status") != "dfs-done"]) for r in runs)
         wall = time.time() - t0
         statuses = _count(o.get("status") for r in runs for o in r)
